@@ -414,6 +414,12 @@ func triggerClass(c *planCase) string {
 			return "comment-newline"
 		}
 	}
+	// the first line of a golang-migrate / flyway file (and of what the DBMate reader keeps) is the
+	// first comment: "-- atlas:delimiter X" there is read by Scanner.init as the delimiter directive
+	if n := c.fm.name; (n == "golang-migrate" || n == "flyway" || n == "dbmate") && len(p.Changes) > 0 &&
+		strings.HasPrefix(p.Changes[0].Comment, "atlas:delimiter") {
+		return "comment-delimiter-directive"
+	}
 	if s := c.spec; s != nil {
 		for _, f := range s.feats {
 			v := s.hot[f.role]
